@@ -335,6 +335,8 @@ def run(tier, seed):
                sfc_models.sector.Market._SearchSupplier, sfc_models.models.Model._GenerateRegisteredCashFlows)
     BUDGET[0] = 60 if tier == 'quick' else 900
     BUDGET[1] = 100 if tier == 'quick' else 3000
+    from vf import selfcheck
+    selfcheck.run(chk)      # differential validation of the E2 value classes (trusted base) against plain floats
     ncs, ccs = nc_cases(tier), contraction_cases(tier)
     chk.bounds = {'non-convergence / evaluation errors': '%d cases: blocks %r x iteration cap; 2 periods; start values and exogenous symbolic in [-100,100]' % (len(ncs), sorted(BLOCKS)),
                   'contraction => success': '%d cases x = A*x + B, A in {0.8,-0.8,0.5,...}, B and x(0) symbolic in the stated box (quick: A in {-0.8, 0.5, -0.5, 0.25} with boxes +-1000/+-100; A = 0.8 needs ~130 damped sweeps and is explored in the thorough tier only), DEFAULT cap 400, tolerance >= %g, one variable'
